@@ -118,8 +118,61 @@ def run_file(path, label, n_random, preload=False):
     fut.close()
 
 
+def header_and_warm_cache_io(d):
+    """C07 clauses that are about SEQUENCES of calls on one reader: (a) regenerating a trace header of a regular file costs
+    4 bytes per stored array -- on a fresh reader AND after a tracefield lookup has put one array into memory;
+    (b) the lines of one group of 4 share one fetch: a second line of the group costs no read, a multi-line call
+    fetches no byte twice; (c) the same with the crossline group"""
+    n_il, n_xl, ns = 9, 10, 300
+    src = rnd_cube(rng, (n_il, n_xl, ns))
+    sgy = os.path.join(d, 'hio.sgy'); p = os.path.join(d, 'hio.sgz')
+    mk_segy(sgy, src, range(1, 1 + n_il), range(20, 20 + n_xl))
+    write_segy_sgz(sgy, p, bpv=4)
+    sp = SpecFile(p)
+    foot = 4096 * sp.nhb + 4096 * sp.ndb
+    label = f'segy {n_il}x{n_xl}x{ns} bpv=4 ({sp.nha} stored header arrays)'
+    def footer_reads(f):
+        return [(o, l) for o, l in f.log if o >= foot]
+    def data_reads(f):
+        return [(o, l) for o, l in f.log if 4096 * sp.nhb <= o < foot]
+    for warm in (False, True):
+        f = CountingFile(p)
+        with SgzReader(f) as r:
+            if warm:
+                r.get_tracefield_values(189)
+            for t in (0, 7, n_il * n_xl - 1):
+                f.log.clear()
+                r.gen_trace_header(t)
+                fr = footer_reads(f)
+                inp = {'file': label, 'call': 'gen_trace_header', 'args': [t], 'after': 'get_tracefield_values(189)' if warm else 'open'}
+                R.case(('hdr-io', warm, t), sample=inp)
+                want = [(foot + k * sp.stride + 4 * t, 4) for k in range(sp.nha)]
+                if sorted(fr) != sorted(want) and not (warm and set(fr) <= set(want)):
+                    R.violation('oracle', inp, f'regenerating one trace header read {len(fr)} range(s), {sum(l for _, l in fr)} bytes from the footer; '
+                                f'the property allows 4 bytes per stored array ({sp.nha} arrays): {fr[:4]}')
+    for name, other, idx in (('read_inline', 'read_inline', (4, 5, 6, 7)), ('read_crossline', 'read_crossline', (4, 5, 6, 7))):
+        f = CountingFile(p)
+        with SgzReader(f) as r:
+            f.log.clear()
+            total = []
+            for k, i in enumerate(idx):
+                before = len(f.log)
+                getattr(r, name)(i)
+                new = data_reads(f)[len(total):]
+                total += new
+                inp = {'file': label, 'call': name, 'args': [i], 'after': f'{name}({idx[0]}) on the same reader' if k else 'open'}
+                R.case(('warm', name, i), sample=inp)
+                if k > 0 and new:
+                    R.violation('oracle', inp, f'a second line of the same group of 4 fetched {sum(l for _, l in new)} bytes again: {new[:3]}')
+            ivs = sorted((o, o + l) for o, l in total)
+            if any(b[0] < a_[1] for a_, b in zip(ivs, ivs[1:])):
+                R.violation('oracle', {'file': label, 'call': f'{name} x4 (one group)'}, 'bytes of the data section fetched twice within the group')
+
+
 try:
     quick = (a.tier == 'quick') and not a.search
+    if a.pid == 'C07':
+        header_and_warm_cache_io(d)
     layouts = LAYOUTS_3D if not quick else (LAYOUTS_3D[:3] + rng.sample(LAYOUTS_3D[3:], 7))
     nshapes = 1 if quick else 4
     # always: a default-layout file whose traces span SEVERAL z-blocks (bs2 = 64 at 32 bit) and a z-slice-layout file
